@@ -2,6 +2,7 @@ package main
 
 import (
 	"fmt"
+	"strings"
 
 	"golang.org/x/tools/go/ssa"
 )
@@ -113,6 +114,8 @@ func (e *Enc) enterLoop(fr *Frame, li *loopInfo, st *State) *State {
 			Clause: inv.Src, Reach: st.reach, Goal: g, Pos: e.posStr(li.pos)})
 	}
 	// 2. dry run of the body to learn what it writes
+	li.frame, li.oldW = fr, map[string]bool{}
+	e.dryLoops = append(e.dryLoops, li)
 	d := e.beginDry(fr)
 	{
 		hst := st.clone()
@@ -132,12 +135,27 @@ func (e *Enc) enterLoop(fr *Frame, li *loopInfo, st *State) *State {
 		e.encodeBlocks(fr, ordered, hst, li.body)
 	}
 	written := e.endDry(fr, d)
+	e.dryLoops = e.dryLoops[:len(e.dryLoops)-1]
+	// writes of this loop's body are writes of every enclosing loop body that is being dry-run; "old" ones stay old,
+	// fresh ones are re-judged by the enclosing loops' own dry runs (noteLoopWrite runs for every active loop)
 	// 3. havoc
 	h := st.clone()
 	for _, k := range sortedKeys(written) {
-		if _, ok := e.heapSort[k]; ok {
-			h.heap[k] = e.fresh(k, e.heapSort[k])
+		if srt, ok := e.heapSort[k]; ok {
+			pre, hadPre := st.heap[k]
+			if !hadPre {
+				pre = e.heapGet(st, k, srt)
+			}
+			h.heap[k] = e.fresh(k, srt)
 			e.writeLog[k] = true
+			// loop frame rule: a reference-indexed heap component that the body writes only inside objects it
+			// allocates itself is unchanged, across any number of iterations, for every object that existed at loop entry
+			if !li.oldW[k] && !written["*"] && (strings.HasPrefix(k, "F|") || strings.HasPrefix(k, "S|") || strings.HasPrefix(k, "P|")) {
+				ks, _ := splitArraySort(srt)
+				if ks == "Int" {
+					e.assert("(forall ((r Int)) (! (=> (<= r " + st.alloc + ") (= (select " + h.heap[k] + " r) (select " + pre + " r))) :pattern ((select " + h.heap[k] + " r))))")
+				}
+			}
 		}
 	}
 	if written["*"] {
